@@ -6,7 +6,7 @@ Theorems about the executable model `Model/Transport.lean` of `init_mix` (non-mu
 column set-ups (any number of cells, lengths, dispersivities, diffusion coefficient, time step, flow direction, boundary
 condition pair, `correct_disp`), all initial columns and any number of shifts and sub-mixes.
 
-* `weights_convex`, `bounded_mixing` — full strength.
+* `weights_convex`, `bounded_mixing`, `concentration_range` — full strength.
 * `closed_inventory_constant` — the property's conservation clause (diffusion only, closed ends, equal lengths).
 * `advective_shift_exact_forward/back`, `pure_advection_nmix_zero`, `pure_advection_step`, `advection_keyword_exact`.
 * `flux_inventory_balance`, `flux_inventory_balance_back` — with flow and flux boundaries the inventory changes by
@@ -65,6 +65,16 @@ cell after every transport step. -/
 theorem bounded_mixing (s : Setup) (hs : s.Valid) (shifts : Nat) {lo hi : Rat} {c : Col Rat} (hc : c.Within lo hi) :
     ∀ c' ∈ transportRun s shifts c, c'.Within lo hi :=
   runWith_within (fun _ h => transportStep_within s hs h) shifts c hc
+
+/-- **concentration_range** — the range clause of the property for *concentrations* in cells of different water
+content: `add_mix` mixes the amount of a solute and the mass of water with the same fractions, so if in every cell and
+boundary solution of the initial column `lo·water ≤ amount ≤ hi·water` (concentration in `[lo, hi]`), the same holds in
+every cell after every transport step — for every set-up, any number of shifts and sub-mixes. (That the water mass after
+speciation equals the mixed water mass up to ~1e-9 is observed on the real outputs, not proved.) -/
+theorem concentration_range (s : Setup) (hs : s.Valid) (shifts : Nat) {lo hi : Rat} {n w : Col Rat}
+    (h : Col.RelW lo hi n w) :
+    List.Forall₂ (Col.RelW lo hi) (transportRun s shifts n) (transportRun s shifts w) :=
+  runWith_rel (fun _ _ h => transportStepWith_rel (fun w hw => (weights_convex s hs w hw).1) _ _ _ h) shifts n w h
 
 /-- equal cell lengths, no flow, no constant-concentration boundary: the stored weights are symmetric -/
 theorem initMix_sym (s : Setup) (hf : s.flow = Flow.none) (h1 : s.bconFirst ≠ 1) (h2 : s.bconLast ≠ 1)
@@ -273,6 +283,13 @@ example : ((transportRun exClosed 1 { first := 5, cells := [1, 0, 0, 0], last :=
 -- unequal lengths are *not* conservative in this scheme (the engine warns "Unequal cell-lengths may give mass-balance error")
 example : (transportRun { exClosed with cells := [⟨1/2, 0⟩, ⟨1, 0⟩, ⟨1/2, 0⟩, ⟨1/2, 0⟩] } 1
     { first := 5, cells := [1, 0, 0, 0], last := 7 }).map Col.sum ≠ [1] := by decide +kernel
+
+-- concentration range: amounts 1,0,4 mol in 1, 2, 2 kg water (concentrations 1, 0, 2 ∈ [0,2]); boundaries 0 and 2
+example : Col.RelW 0 2 { first := 0, cells := [1, 0, 4], last := 4 } { first := 1, cells := [1, 2, 2], last := 2 } := by
+  have r : ∀ a b : Rat, (0 * b ≤ a ∧ a ≤ 2 * b) → Rel 0 2 a b := fun _ _ h => h
+  refine ⟨r _ _ (by decide +kernel), ?_, r _ _ (by decide +kernel)⟩
+  exact List.Forall₂.cons (r _ _ (by decide +kernel)) (List.Forall₂.cons (r _ _ (by decide +kernel))
+    (List.Forall₂.cons (r _ _ (by decide +kernel)) List.Forall₂.nil))
 
 example : (shiftF { first := 9, cells := [1, 2, 3], last := 7 } : Col Rat).cells = [9, 1, 2] := by decide +kernel
 example : (shiftB { first := 9, cells := [1, 2, 3], last := 7 } : Col Rat).cells = [2, 3, 7] := by decide +kernel
